@@ -21,8 +21,11 @@ RULE = (
     "header, terminator with LC} x {library RS(12,9) parity under the data-type mask, 24 free check bits}, PI header, rate "
     "1/2, 3/4, 1 x {unconfirmed, confirmed, unconfirmed last, confirmed last}.  Field values: every field of the variant "
     "drawn over the full width the serialiser writes (enum fields over the defined members), check fields left to the "
-    "library.  data_grid enumerates variant x colour code x sync by construction (thorough: full cross product; quick: "
-    "every variant with all 16 colour codes and all 4 syncs in a rotating pairing) with seeded random field values; "
+    "library.  data_grid enumerates the full cross product variant x colour code x sync by construction (quick: one, thorough: four "
+    "seeded random field settings per cell); data_boundary is a deterministic pass that puts every field of every variant at "
+    "each extreme value one at a time (integers 0, 1, max-1, max, top bit only; every enum member; payload bytes/bits "
+    "all-zero, all-ones, single octet/bit, alternating) over two seeded backgrounds, plus all-min / all-max settings and the "
+    "constructor-settable check fields (CSBK/header/PI CRC, CRC-9, 24-bit full-LC field) at 0 / all-ones / library-computed; "
     "data_random draws everything with Hypothesis.  voice bursts: 216 vocoder bits around each of the four voice sync "
     "patterns, or around the reference QR(16,7,6) codeword of every (colour code, PI, LCSS) (all 128 enumerated) with 32 "
     "embedded bits; payloads random / all-zero / all-one; voice_near_sync: for every SYNC word S of table 9.2 (10) and every EMB codeword "
@@ -424,7 +427,7 @@ def drv_reuse(ctx: Ctx, sub: SubCheck):
     _preimport()
     from hypothesis import strategies as st
 
-    k = ctx.pick(10, 40)
+    k = ctx.pick(25, 250)
     items = [(kind, variant, j) for (kind, variant) in G.VARIANTS for j in range(k)]
 
     def work(chunk, t: Tally):
@@ -447,7 +450,7 @@ def drv_reuse(ctx: Ctx, sub: SubCheck):
 
     def hyp(kv, t: Tally):
         kind, variant = kv
-        ctx.hypothesis(sub.name, strat(kind, variant), oracle_reuse, ctx.pick(6, 60), tally=t, shard=f"{kind}/{variant}", record=lambda c, tt: _tally_reuse(sub.name, c, tt))
+        ctx.hypothesis(sub.name, strat(kind, variant), oracle_reuse, ctx.pick(12, 350), tally=t, shard=f"{kind}/{variant}", record=lambda c, tt: _tally_reuse(sub.name, c, tt))
 
     ctx.shards(hyp, list(G.VARIANTS))
 
@@ -477,16 +480,12 @@ def _tally_data(sub, c, t: Tally):
 
 def drv_data_grid(ctx: Ctx, sub: SubCheck):
     _preimport()
-    items = []
-    for vi, (kind, variant) in enumerate(G.VARIANTS):
-        for cc in range(16):
-            syncs = SYNC_NAMES if not ctx.quick else [SYNC_NAMES[(cc + vi) % 4]]
-            for sync in syncs:
-                items.append((kind, variant, cc, sync))
+    reps = ctx.pick(1, 4)
+    items = [(kind, variant, cc, sync, r) for (kind, variant) in G.VARIANTS for cc in range(16) for sync in SYNC_NAMES for r in range(reps)]
 
     def work(chunk, t: Tally):
-        for kind, variant, cc, sync in chunk:
-            rng = ctx.rng("grid", kind, variant, cc, sync)
+        for kind, variant, cc, sync, r in chunk:
+            rng = ctx.rng("grid", kind, variant, cc, sync, r)
             c = {"kind": kind, "variant": variant, "f": G.rng_fields(rng, kind, variant), "cc": cc, "sync": sync}
             _SIDE.clear()
             ctx.run_case(sub.name, oracle_data, c, t)
@@ -494,9 +493,32 @@ def drv_data_grid(ctx: Ctx, sub: SubCheck):
 
     n = 64
     ctx.shards(work, [items[i::n] for i in range(n)])
-    ctx.tally.extra["grid_cells_variant_x_cc_x_sync"] = len(items)
-    ctx.tally.extra["grid_is_full_cross_product"] = not ctx.quick
+    ctx.tally.extra["grid_cells_variant_x_cc_x_sync"] = len(items) // reps
+    ctx.tally.extra["grid_field_backgrounds_per_cell"] = reps
+    ctx.tally.extra["grid_is_full_cross_product"] = True
     ctx.tally.extra["pdu_variants"] = len(G.VARIANTS)
+
+
+def drv_data_boundary(ctx: Ctx, sub: SubCheck):
+    """deterministic boundary pass: per variant every field at each of its extreme values, one at a time, over two seeded
+    backgrounds (G.boundary_cases), the all-minimum / all-maximum field settings and the check-field modes 0 / all-ones /
+    library-computed; colour code and sync rotate over {0, 15, 8, 1, 7} x the four data syncs."""
+    _preimport()
+    items = []
+    for kind, variant in G.VARIANTS:
+        bgs = [G.rng_fields(ctx.rng("boundary_background", kind, variant, i), kind, variant) for i in range(2)]
+        for j, (label, f) in enumerate(G.boundary_cases(kind, variant, bgs)):
+            items.append((label, {"kind": kind, "variant": variant, "f": f, "cc": (0, 15, 8, 1, 7)[j % 5], "sync": SYNC_NAMES[(j // 5) % 4]}))
+
+    def work(chunk, t: Tally):
+        for label, c in chunk:
+            _SIDE.clear()
+            ctx.run_case(sub.name, oracle_data, c, t)
+            _tally_data(sub.name, c, t)
+            t.cls(sub.name, "boundary:" + label)
+
+    ctx.shards(work, [items[i::64] for i in range(64)])
+    ctx.tally.extra["boundary_cases"] = len(items)
 
 
 def _variant_strategy(kind, variant):
@@ -511,11 +533,11 @@ def drv_data_random(ctx: Ctx, sub: SubCheck):
     _preimport()
     # one Hypothesis search per PDU variant (a single search over all variants starves some of them: Hypothesis spent 3 of
     # 1120 examples on HyteraIPSCSync and 2 on UDT headers when the variant was drawn with sampled_from)
-    def hyp(kv, t: Tally):
-        kind, variant = kv
-        ctx.hypothesis(sub.name, _variant_strategy(kind, variant), oracle_data, ctx.pick(25, 1500), tally=t, shard=f"{kind}/{variant}", record=_record_data(sub.name))
+    def hyp(it, t: Tally):
+        kind, variant, part = it
+        ctx.hypothesis(sub.name, _variant_strategy(kind, variant), oracle_data, ctx.pick(150, 3000), tally=t, shard=f"{kind}/{variant}/{part}", record=_record_data(sub.name))
 
-    ctx.shards(hyp, list(G.VARIANTS))
+    ctx.shards(hyp, [(kind, variant, part) for part in range(ctx.pick(1, 3)) for (kind, variant) in G.VARIANTS])
 
 
 # ---------------------------------------------------------------------------------------------- voice bursts
@@ -602,7 +624,7 @@ def _voice_payload(rng):
 
 def drv_voice_grid(ctx: Ctx, sub: SubCheck):
     _preimport()
-    k = ctx.pick(4, 24)
+    k = ctx.pick(12, 100)
     items = [("emb", cc, pi, lcss) for cc in range(16) for pi in range(2) for lcss in range(4)] + [("sync", s, 0, 0) for s in VOICE_SYNC_NAMES for _ in range(8)]
 
     def work(chunk, t: Tally):
@@ -685,6 +707,26 @@ def drv_voice_near_sync(ctx: Ctx, sub: SubCheck):
     ctx.tally.extra["near_sync_grid_cells_sync_x_emb_word"] = len(cells)
 
 
+def drv_voice_boundary(ctx: Ctx, sub: SubCheck):
+    """deterministic: vocoder bits all-zero / all-ones / alternating (both phases) x embedded bits all-zero / all-ones /
+    alternating (both phases) for every EMB value, and the four vocoder patterns for every voice sync"""
+    _preimport()
+    voices = ["0" * 54, "f" * 54, "a" * 54, "5" * 54]
+    embs = ["00000000", "ffffffff", "aaaaaaaa", "55555555"]
+    items = [{"center": "emb", "cc": m >> 3, "pi": (m >> 2) & 1, "lcss": m & 3, "emb_bits": e, "voice": v} for m in range(128) for e in embs for v in voices]
+    items += [{"center": "sync", "sync": sname, "voice": v} for sname in VOICE_SYNC_NAMES for v in voices]
+
+    def work(chunk, t: Tally):
+        for c in chunk:
+            _SIDE.clear()
+            ctx.run_case(sub.name, oracle_voice, c, t)
+            t.case(sub.name, key=None, nontrivial=True, cls=("emb" if c["center"] == "emb" else "sync") + ":voice=" + c["voice"][0] * 2)
+        t.sample(sub.name, chunk[0])
+
+    ctx.shards(work, [items[i::16] for i in range(16)])
+    ctx.tally.exhaustive[sub.name] = True
+
+
 def drv_voice_random(ctx: Ctx, sub: SubCheck):
     _preimport()
     from hypothesis import strategies as st
@@ -705,16 +747,18 @@ def drv_voice_random(ctx: Ctx, sub: SubCheck):
     )
 
     def hyp(shard, t: Tally):
-        ctx.hypothesis(sub.name, strat, oracle_voice, ctx.pick(40, 2500), tally=t, shard=shard, record=lambda c, tt: _tally_voice(sub.name, c, tt))
+        ctx.hypothesis(sub.name, strat, oracle_voice, ctx.pick(300, 8000), tally=t, shard=shard, record=lambda c, tt: _tally_voice(sub.name, c, tt))
 
-    ctx.shards(hyp, list(range(16)))
+    ctx.shards(hyp, list(range(ctx.pick(16, 48))))
 
 
 SUBCHECKS = [
     SubCheck("data_grid", oracle_data, drv_data_grid, "every PDU variant x colour code x data sync (by construction), seeded random fields: layout reference, parse, field equality, re-assembly"),
+    SubCheck("data_boundary", oracle_data, drv_data_boundary, "deterministic boundary pass: every field of every variant at each extreme value (0, 1, max-1, max, top bit; every enum member; all-00 / all-FF / single-octet / alternating payloads) one at a time, all-min / all-max, check fields 0 / all-ones / computed"),
     SubCheck("data_random", oracle_data, drv_data_random, "Hypothesis-drawn (variant, fields, colour code, sync): same oracle"),
     SubCheck("reuse", oracle_reuse, drv_reuse, "stale state on reused objects: one Burst (assembled or parsed) carries state 1, is serialised (as_bytes/as_bits/repr/debug), is re-targeted to state 2 (payload replaced or rewritten in place, slot type, sync) and back: every serialisation equals a freshly assembled burst"),
     SubCheck("voice_grid", oracle_voice, drv_voice_grid, "all 128 (cc, PI, LCSS) EMB codewords and the 4 voice syncs x random vocoder/embedded bits: parse-then-serialise is the identity"),
+    SubCheck("voice_boundary", oracle_voice, drv_voice_boundary, "every EMB value x {all-zero, all-ones, alternating} vocoder bits x {all-zero, all-ones, alternating} embedded bits; every voice sync x the vocoder patterns (complete)"),
     SubCheck("voice_near_sync", oracle_voice, drv_voice_near_sync, "voice bursts whose valid-EMB centre is at minimal Hamming distance from a SYNC pattern: 10 SYNC words x 128 EMB codewords with the SYNC word's own middle bits as embedded bits, and 1-2 embedded bits flipped"),
     SubCheck("voice_random", oracle_voice, drv_voice_random, "Hypothesis-drawn voice bursts (both centre kinds): same oracle"),
 ]
